@@ -39,4 +39,7 @@ def runJudgesEveryPacket : Bool := true
 /-- Packetizer: the roll-over guard tests the (masked) value that is assigned to the sequence-number counter -/
 def rolloverGuardReadsAssignedValue : Bool := true
 
+/-- _activate_inbound/_activate_outbound reset the sequence number under `self.agreed_on_strict_kex` alone -/
+def seqnoResetGuardIsStrictOnly : Bool := true
+
 end PV.Generated.C12
